@@ -96,6 +96,18 @@ theorem pinv_call_min_norm (isPos : K → Bool) (cb : Csr K → Arr K → Except
 
 end ordered
 
+/-- **direct-solver clause (pseudo-inverse on a nonsingular matrix)**: when the computed `pinvD` is
+certified to be the inverse, a fresh `pinv` solver returns the unique solution of `A x = b` -/
+theorem pinv_call_solves (isPos : K → Bool) (cb : Csr K → Arr K → Except String (Arr K)) (o : Opts K)
+    (A : Csr K) (b : Arr K) (hn : b.data.size = A.n) (hz : nnz A ≠ 0)
+    (hc : isInv (toDense A A.n) (pinvD id (toDense A A.n) A.n) A.n = true) :
+    ∃ x, (call id isPos cb .pinv o {} A b).2.1 = .ok x ∧ x.shape = b.shape ∧
+      toMat (toDense A A.n) A.n *ᵥ toVec x.data A.n = toVec b.data A.n ∧
+      ∀ y, toMat (toDense A A.n) A.n *ᵥ y = toVec b.data A.n → y = toVec x.data A.n := by
+  refine ⟨_, call_pinv isPos cb o A b hn hz, rfl, ?_⟩
+  simp only [toVec_matVec]
+  exact C16LA.inverse_solution_unique _ _ (isInv_sound _ _ _ hc) _
+
 /-- **direct-solver clause (dense LU)**: when the dense copy has the certified inverse, a fresh `lu`
 solver returns, in the shape of `b`, the unique solution of `A x = b` -/
 theorem lu_call_solves (isPos : K → Bool) (cb : Csr K → Arr K → Except String (Arr K)) (o : Opts K)
